@@ -377,6 +377,28 @@ func init() {
 	}
 }
 
+func init() {
+	// C20, part "live": how the connection feeds its timeout manager
+	// (adaptive mode, every response or every second one a candidate
+	// sample, links with and without latency).
+	jobTable["C20"] = jobSet{
+		quick: []Job{
+			{Scenario: "bidi/N=2/k1=3/k2=3/adaptive/freq=1/lat=150ms/tmlive", Budgets: bs(B(0, 2)), Split: 1},
+			{Scenario: "bidi/N=2/k1=3/k2=3/adaptive/freq=1/tmlive", Budgets: bs(B(0, 2)), Split: 1},
+			{Scenario: "bidi/N=1/k1=3/k2=3/adaptive/freq=2/lat=150ms/tmlive", Budgets: bs(B(0, 2)), Split: 1},
+			{Scenario: "uni/N=2/k=4/adaptive/freq=1/lat=150ms/tmlive", Budgets: bs(B(1, 1)), Split: 1},
+		},
+		thorough: []Job{
+			{Scenario: "bidi/N=2/k1=3/k2=3/adaptive/freq=1/lat=150ms/tmlive", Budgets: bs(B(1, 1), B(0, 3)), Split: 2},
+			{Scenario: "bidi/N=2/k1=3/k2=3/adaptive/freq=1/tmlive", Budgets: bs(B(1, 1), B(0, 3)), Split: 2},
+			{Scenario: "bidi/N=1/k1=3/k2=3/adaptive/freq=2/lat=150ms/tmlive", Budgets: bs(B(1, 1), B(0, 3)), Split: 2},
+			{Scenario: "bidi/N=3/k1=5/k2=5/adaptive/freq=3/lat=300ms/tmlive", Budgets: bs(B(0, 2)), Split: 1},
+			{Scenario: "uni/N=2/k=4/adaptive/freq=1/lat=150ms/tmlive", Budgets: bs(B(1, 2), B(0, 3)), Split: 2},
+		},
+		quickS: 150, thoroughS: 900,
+	}
+}
+
 // jobsFor lists the explorations of a property at a tier and the wall-clock
 // budget (seconds) after which expansion stops (exit 0, exhaustive:false).
 func jobsFor(prop string, thorough bool) ([]Job, int) {
